@@ -29,9 +29,10 @@ import overlay as ovl_mod  # noqa: E402
 VERIF = ovl_mod.VERIF
 HARNESS_ROOT = ovl_mod.HARNESS_ROOT
 KNOWN_FILE = os.path.join(VERIF, "known_findings.json")
-EVIDENCE_DIR = os.path.join(VERIF, "evidence")
-REPLAY_DIR = os.path.join(VERIF, "replays")
-LOG_DIR = os.path.join(VERIF, "logs")
+# overridable for experiments against scratch trees (seeded changes), so that they never touch the committed evidence
+EVIDENCE_DIR = os.environ.get("VERIF_EVIDENCE_DIR", os.path.join(VERIF, "evidence"))
+REPLAY_DIR = os.environ.get("VERIF_REPLAY_DIR", os.path.join(VERIF, "replays"))
+LOG_DIR = os.environ.get("VERIF_LOG_DIR", os.path.join(VERIF, "logs"))
 SEED_TARGET = os.path.join(VERIF, ".cache", "ktarget-seed")
 
 ENV = dict(os.environ)
@@ -243,7 +244,7 @@ def kani_cmd(h, tdir, playback=False):
 
 RE_SUMMARY = re.compile(r"\*\* (\d+) of (\d+) failed(?: \((.*?)\))?")
 RE_COVER = re.compile(r"\*\* (\d+) of (\d+) cover properties satisfied")
-RE_CHECK = re.compile(r"^Check (\d+): (\S+)\n\t - Status: (\w+)\n\t - Description: \"(.*)\"\n\t - Location: (.*)$", re.M)
+RE_CHECK = re.compile(r"^Check (\d+): (.+)\n\t - Status: (\w+)\n\t - Description: \"(.*)\"\n\t - Location: (.*)$", re.M)
 
 
 def parse_log(text):
@@ -618,7 +619,7 @@ def cmd_check(prop, tier, only, jobs, keep):
         return 2
     hs_by_id = {h.id: h for h in hs}
     known = load_known()
-    logdir = os.path.join(LOG_DIR, "%s-%s" % (prop, tier))
+    logdir = os.path.join(LOG_DIR, "%s-%s%s" % (prop, tier, ("-" + only) if only else ""))
     shutil.rmtree(logdir, ignore_errors=True)
     os.makedirs(logdir, exist_ok=True)
     ovl, problems, injected = ovl_mod.make_overlay(prop)
